@@ -14,6 +14,7 @@
 //	func (a *Assembly) BackingRead(addr, n) []byte   reads the backing Storage of the memory module owning addr
 //	func (a *Assembly) Pending() int         data+control requests of the agent still unanswered
 //	Assembly fields: Engine, Agent, ROB, WB/WT (per cache level; exactly one non-nil), Ideal/Banked/DRAM (per module),
+//	                 Stores (backing mem.Storage per module), CacheStores (data array per cache level),
 //	                 CtrlTargets (name -> Control port remote), Cfg
 //	func RandomConfig(r *hx.Rand, o GenOpts) Config   random composition + geometry + workload script
 //
@@ -426,6 +427,8 @@ type Assembly struct {
 	Banked []*simplebankedmemory.Comp
 	DRAM   []*dram.Comp
 	Stores []*mem.Storage // backing storage per memory module
+	// CacheStores is the data array (mem.Storage) of every cache level.
+	CacheStores []*mem.Storage
 	// CtrlTargets maps a module name to its Control port.
 	CtrlTargets map[string]messaging.RemotePort
 
@@ -577,6 +580,7 @@ func Build(cfg Config) *Assembly {
 	// --- caches, bottom-up
 	a.WB = make([]*writeback.Comp, len(cfg.Caches))
 	a.WT = make([]*writethroughcache.Comp, len(cfg.Caches))
+	a.CacheStores = make([]*mem.Storage, len(cfg.Caches))
 	var below messaging.RemotePort // Top port of the level below (single)
 	conn := memConn
 	for i := len(cfg.Caches) - 1; i >= 0; i-- {
@@ -589,6 +593,8 @@ func Build(cfg Config) *Assembly {
 			mapper = &mem.SinglePortMapper{Port: below}
 		}
 		total := uint64(cc.Sets*cc.Ways) << cc.Log2Block
+		cst := mem.NewStorage(total)
+		a.CacheStores[i] = cst
 		var top, bot, ctl messaging.Port
 		if cc.Kind == "writeback" {
 			s := writeback.DefaultSpec()
@@ -611,7 +617,7 @@ func Build(cfg Config) *Assembly {
 			}
 			c := writeback.MakeBuilder().WithRegistrar(reg).WithSpec(s).
 				WithResources(writeback.Resources{
-					Storage: mem.NewStorage(total), AddressToPortMapper: mapper}).Build(name)
+					Storage: cst, AddressToPortMapper: mapper}).Build(name)
 			top, bot, ctl = newPort(c, "Top", cc.PortBuf), newPort(c, "Bottom", cc.PortBuf), newPort(c, "Control", 4)
 			c.AssignPort("Top", top)
 			c.AssignPort("Bottom", bot)
@@ -633,7 +639,7 @@ func Build(cfg Config) *Assembly {
 			}
 			c := writethroughcache.MakeBuilder().WithRegistrar(reg).WithSpec(s).
 				WithResources(writethroughcache.Resources{
-					Storage: mem.NewStorage(total), AddressMapper: mapper}).Build(name)
+					Storage: cst, AddressMapper: mapper}).Build(name)
 			top, bot, ctl = newPort(c, "Top", cc.PortBuf), newPort(c, "Bottom", cc.PortBuf), newPort(c, "Control", 4)
 			c.AssignPort("Top", top)
 			c.AssignPort("Bottom", bot)
